@@ -251,7 +251,7 @@ func (s *session) generate(b *valpool.Builder) error {
 	// Instances: class triples covering every usable class (rotation offset seeded), two seeded
 	// representatives per class.  Go API: every behaviour on every instance, fill = 1 at every filler
 	// size (quick: two sizes per instance).
-	ninst := c.Pick(8, 42)
+	ninst := c.Pick(8, 28)
 	for ninst*3 < len(s.classes) {
 		ninst++
 	}
@@ -310,13 +310,13 @@ func (s *session) generate(b *valpool.Builder) error {
 		}
 	}
 
-	// builtins: every behaviour once (thorough: on two instances), instances and fill sizes rotating
+	// builtins: one evaluation per behaviour, a seeded third (thorough: half) of the behaviours, instances and fill sizes rotating
 	fc := newFillerCache()
 	elvRuns := 0
-	for pass := 0; pass < c.Pick(1, 2); pass++ {
+	for pass := 0; pass < 1; pass++ {
 		for ii, in := range insts {
-			stride := len(insts) * c.Pick(3, 1) // quick: every third behaviour (which third is seeded)
-			for bi := ii + len(insts)*(int(c.Seed)%c.Pick(3, 1)); bi < len(behs); bi += stride {
+			stride := len(insts) * c.Pick(3, 2) // quick: every third, thorough: every second behaviour (which one is seeded)
+			for bi := ii + len(insts)*(int(c.Seed)%c.Pick(3, 2)); bi < len(behs); bi += stride {
 				bh := behs[(bi+pass*3)%len(behs)]
 				F := 0
 				if bh.Fill == 1 {
